@@ -1086,6 +1086,8 @@ class Interp:
                 return neg(v)
             return not self.truth(st, v)
         v = st.force(v)
+        if v is None:
+            raise PyRaise(SExc(TypeError, ("bad operand type for unary op: 'NoneType'",)))  # as CPython: -None / +None / ~None
         if isinstance(e.op, ast.USub):
             return -v
         if isinstance(e.op, ast.UAdd):
